@@ -13,7 +13,7 @@
      [k |-> "mark", id, by, t]                  queue.mark()
      [k |-> "pop", id, by, cls, t]              queue.pop() by task `by` of class cls
                                                  ("U","PK","PS","RF","WC","caller")
-     [k |-> "ret", c, result, t]                the call returned: "reply" | "fail" | "refused"
+     [k |-> "ret", c, result, t]                the call returned: "reply" | "fail" | "refused" | "raised" (an exception)
      [k |-> "inert", same, t]                   state comparison around mis-addressed traffic
      [k |-> "down", t]                          the connection's transport was lost (connection_lost ran): nothing
                                                  can be sent any more, the manager tears the consumers down;
@@ -130,6 +130,8 @@ TRet == /\ More /\ E.k = "ret" /\ At(E.t)
            \* (after the transport was lost the remaining attempts leave no trace on the wire)
            /\ E.result = "fail" => (~cl.gotreply /\ (cl.attempts = R \/ (down /\ cl.attempts <= R)))
            /\ E.result = "refused" => cl.attempts = 0
+           \* an API call may end with an exception only because the connection went away underneath it
+           /\ E.result = "raised" => down
            \* finishes within retry-count x (timeout + pause), on the polling grid
            /\ cl.attempts > 0 => E.t - cl.first <= R * (T + P) + R * Poll + Eps + (stallAcc - cl.stall0)
         /\ calls' = [calls EXCEPT ![E.c] = NoCall]
